@@ -285,6 +285,168 @@ def prepare(tier):
     return {"validated": 0, "validation": []}
 
 
+# ------------------------------------------------------------------------------------------ whole-network limit
+def _lc_def(net, n, w):
+    """local clustering by definition (igraph's transitivity_local_undirected is not executable symbolically): triangles through i over
+    pairs of neighbours, 0 for degree < 2 (the convention Network.local_clustering applies to igraph's nan)"""
+    A = np.asarray(net.sp_A.d, dtype=object)
+    out = []
+    for i in range(n):
+        k = sx.total(pe._num(A[i, j]) for j in range(n))
+        tri = sx.total(sx.mul(sx.mul(pe._num(A[i, j]), pe._num(A[i, l])), pe._num(A[j, l])) for j in range(n) for l in range(j + 1, n))
+        cases = 0
+        for kv in range(2, n):
+            cases = sx.ite(sx.eq(k, kv), sx.div(tri, kv * (kv - 1) // 2), cases)
+        out.append(cases)
+    return out
+
+
+def _trans_def(net, n, w):
+    A = np.asarray(net.sp_A.d, dtype=object)
+    tri = sx.total(sx.mul(sx.mul(pe._num(A[i, j]), pe._num(A[i, l])), pe._num(A[j, l])) for i in range(n) for j in range(n) for l in range(j + 1, n))
+    trip = sx.total(sx.mul(pe._num(A[i, j]), pe._num(A[i, l])) for i in range(n) for j in range(n) for l in range(j + 1, n))
+    return sx.NF(sx.eq(trip, 0), sx.div(tri, sx.ite(sx.eq(trip, 0), 1, trip)))
+
+
+LIMIT_BITS = [  # (interacting-network measure, internal?, single-network expression)
+    ("cross_degree", False, lambda net, n, w: net.degree()),
+    ("cross_local_clustering", False, _lc_def),
+    ("cross_local_clustering_sparse", False, _lc_def),
+    ("cross_transitivity", False, _trans_def),
+    ("cross_transitivity_sparse", False, _trans_def),
+    ("cross_global_clustering", False, lambda net, n, w: sx.div(sx.total(_lc_def(net, n, w)), n)),
+    ("cross_global_clustering_sparse", False, lambda net, n, w: sx.div(sx.total(_lc_def(net, n, w)), n)),
+    ("number_cross_links", False, lambda net, n, w: 2 * net.n_links),
+    ("nsi_cross_degree", False, lambda net, n, w: net.nsi_degree()),
+    ("nsi_cross_local_clustering", False, lambda net, n, w: net.nsi_local_clustering()),
+    ("nsi_cross_transitivity", False, lambda net, n, w: net.nsi_transitivity()),
+    ("nsi_cross_global_clustering", False, lambda net, n, w: net.nsi_global_clustering()),
+    ("internal_degree", True, lambda net, n, w: net.degree()),
+    ("nsi_internal_degree", True, lambda net, n, w: net.nsi_degree()),
+    ("nsi_internal_local_clustering", True, lambda net, n, w: net.nsi_local_clustering()),
+    ("internal_global_clustering", True, lambda net, n, w: sx.div(sx.total(_lc_def(net, n, w)), n)),
+    ("number_internal_links", True, lambda net, n, w: net.n_links),
+]
+LIMIT_PATHS = [
+    ("nsi_cross_closeness_centrality", False, "nsi_closeness"), ("nsi_cross_average_path_length", False, "nsi_average_path_length"),
+    ("internal_closeness", True, "closeness"), ("internal_average_path_length", True, "average_path_length"),
+    ("nsi_internal_closeness_centrality", True, "nsi_closeness"),
+]
+
+
+EXPECTED_UNSUP = {"internal_global_clustering", "internal_closeness", "internal_average_path_length"}     # igraph subgraph based
+NSI_CLUST = ("nsi_cross_local_clustering", "nsi_cross_transitivity", "nsi_cross_global_clustering", "nsi_internal_local_clustering")
+
+
+def ob_whole_limit(name, n, graphs=None, concrete_w=False, only=None):
+    """taking both groups to be the whole node set reproduces the single-network measure (measures whose definition reduces to it;
+    cross_closeness, cross_average_path_length, cross_betweenness and the link densities keep self pairs / ordered pairs by
+    convention and are not demanded).  bits mode for the degree / clustering type, concrete connected topologies for path measures."""
+    from pyunicorn.core.interacting_networks import InteractingNetworks
+    funcs = ["src/pyunicorn/core/interacting_networks.py InteractingNetworks.{" + ",".join(m for m, _, _ in (LIMIT_BITS if graphs is None else LIMIT_PATHS)) + "}",
+             "src/pyunicorn/core/network.py Network.<single-network counterparts>"]
+    if concrete_w:
+        from fractions import Fraction
+        vals = [Fraction(1), Fraction(2), Fraction(1, 2), Fraction(3), Fraction(3, 2), Fraction(5, 4)]
+        w = pe.SymNd(np.array([pe.SV(vals[i % len(vals)]) for i in range(n)], dtype=object))
+        hyps = []
+    else:
+        w = pe.sym(n, "w")
+        hyps = [x.v > 0 for x in w]
+    allv = list(range(n))
+    jobs = [None] if graphs is None else graphs
+    table = [t for t in (LIMIT_BITS if (graphs is None or only) else LIMIT_PATHS) if only is None or t[0] in only]
+
+    def harness_for(G):
+        def harness(ex):
+            out = []
+            with pe.patched(mods(), kernel_patches()):
+                if G is None:
+                    A, present = pnet.bits_adjacency(n)
+                else:
+                    A, present = pnet.concrete_adjacency(G)
+                net = pnet.make_network(InteractingNetworks, A, w, present, False)
+                for meas, internal, single in table:
+                    try:
+                        a = getattr(net, meas)(allv) if internal else getattr(net, meas)(allv, allv)
+                        b = single(net, n, w) if callable(single) else getattr(net, single)()
+                    except (pe.Unsupported, NotImplementedError, AttributeError) as e:
+                        out.append((meas, ["unsupported: " + str(e)[:80]], None))
+                        continue
+                    bl = neq_list(a, b)
+                    if meas.startswith("cross_transitivity"):
+                        # without any connected triple both sides are 0/0 (conventions differ: 0 vs nan); demanded only otherwise
+                        Ad = np.asarray(A, dtype=object)
+                        trip = sx.total(sx.mul(pe._num(Ad[i, j]), pe._num(Ad[i, l])) for i in range(n) for j in range(n) for l in range(j + 1, n))
+                        bl = [sx.and_(sx.gt(trip, 0), c) for c in bl]
+                        bl = [c for c in bl if c is not False]
+                    out.append((meas, bl, A))
+            return out
+        return harness
+    res = []
+    found = {}
+    nq = 0
+    npaths = 0
+    unknown = []
+    unsup = set()
+    for G in jobs:
+        ex = Explorer(hyps, max_paths=512)
+        try:
+            paths = ex.run(harness_for(G))
+        except pe.Unsupported as e:
+            return result(name, INCONCLUSIVE, reason=f"unsupported: {e}", functions=funcs)
+        finally:
+            from pyunicorn.core.network import Network
+            pe.clear_caches(Network)
+        npaths += len(paths)
+        for p in paths:
+            for meas, bl, A in p.result:
+                sig = f"C11|InteractingNetworks.{meas}|whole-network-limit"
+                if sig in found:
+                    continue
+                for b in bl:
+                    if isinstance(b, str):
+                        unsup.add(meas)
+                        continue
+                    nq += 1
+                    v, m = Q.check(hyps + p.cond() + [b], 30, tag=f"{name}|{meas}")
+                    if v == "sat":
+                        Am = [[int(sx.model_value(m, pe._num(np.asarray(A)[i, j]))) for j in range(n)] for i in range(n)]
+                        found[sig] = {"kind": "py:limit", "A": Am, "w": [sx.model_value(m, x.v) if sx.is_sym(x.v) else x.v for x in w], "measure": meas}
+                        break
+                    if v != "unsat":
+                        unknown.append(meas)
+    res = [result(f"{name}|{sig.split('|')[1]}", VIOLATED, functions=funcs, twin="sat", bound=f"n={n}", signature=sig, witness=wit)
+           for sig, wit in found.items()]
+    if unknown:
+        res.append(result(name, INCONCLUSIVE, reason=f"unknown at {sorted(set(unknown))[:4]}", functions=funcs))
+        return res
+    if unsup - EXPECTED_UNSUP:
+        # a measure that stopped being executable must not pass silently
+        res.append(result(name, INCONCLUSIVE, reason=f"not executable by Engine P: {sorted(unsup - EXPECTED_UNSUP)}", functions=funcs))
+        return res
+    res.append(result(name, HELD, functions=funcs, twin="sat",
+                      bound=(f"all undirected graphs n={n} (adjacency bits), weights>0" if graphs is None else f"{len(graphs)} topologies n={n}, weights>0"),
+                      detail=f"{npaths} paths, {nq} queries" + (f"; not executable: {sorted(unsup)}" if unsup else "") + (f"; except {sorted(found)}" if found else "")))
+    return res
+
+
+def connected_graphs(n):
+    out = []
+    for G in gk.all_graphs(n):
+        reach, todo = {0}, [0]
+        while todo:
+            v = todo.pop()
+            for u in range(n):
+                if G[v][u] and u not in reach:
+                    reach.add(u)
+                    todo.append(u)
+        if len(reach) == n:
+            out.append(G)
+    return out
+
+
+
 def obligations(tier):
     th = tier == "thorough"
     obs = []
@@ -305,6 +467,24 @@ def obligations(tier):
         step = 2 if n == 3 else 4
         for ci in range(0, len(graphs), step):
             obs.append((ob_path_measures, dict(name=f"C11|py weighted path measures|n={n}|graphs#{ci // step}", n=n, graphs=graphs[ci:ci + step], weighted=True), 1800))
+    plain = [m for m, _, _ in LIMIT_BITS if m not in NSI_CLUST]
+    for n in ((2, 3, 4) if not th else (2, 3, 4, 5)):
+        obs.append((ob_whole_limit, dict(name=f"C11|whole-network limit|bits n={n}", n=n, only=plain), 2400))
+    for n in ((3, 4) if not th else (3, 4, 5)):
+        gs = list(gk.all_graphs(n))
+        if n == 5:
+            import random
+            gs = random.Random(core.SEED + 5).sample(gs, 120)
+        for ci in range(0, len(gs), 16):
+            obs.append((ob_whole_limit, dict(name=f"C11|whole-network limit|nsi clustering|topologies n={n}#{ci // 16}, symbolic weights", n=n,
+                                             graphs=gs[ci:ci + 16], only=list(NSI_CLUST)), 2400))
+    for n in ((3, 4) if not th else (3, 4, 5)):
+        cg = connected_graphs(n)
+        if n == 5:
+            import random
+            cg = random.Random(core.SEED).sample(cg, 60)
+        for ci in range(0, len(cg), 10):
+            obs.append((ob_whole_limit, dict(name=f"C11|whole-network limit|paths n={n}|graphs#{ci // 10}", n=n, graphs=cg[ci:ci + 10]), 2400))
     return obs
 
 
@@ -321,6 +501,20 @@ def replay(w):
         kw = {"link_attribute": "la"}
     meas = w["measure"]
     import ast
+    if w["kind"] == "py:limit":
+        allv = list(range(n))
+        internal = meas.startswith(("internal_", "nsi_internal", "number_internal"))
+        a = getattr(net, meas)(allv) if internal else getattr(net, meas)(allv, allv)
+        real = {"cross_local_clustering": "local_clustering", "cross_local_clustering_sparse": "local_clustering",
+                "cross_transitivity": "transitivity", "cross_transitivity_sparse": "transitivity", "cross_global_clustering": "global_clustering",
+                "cross_global_clustering_sparse": "global_clustering", "internal_global_clustering": "global_clustering"}
+        single = {m: f for m, _, f in LIMIT_BITS}
+        single.update({m: (lambda net_, n_, w_, s_=s_: getattr(net_, s_)()) for m, _, s_ in LIMIT_PATHS})
+        single.update({m: (lambda net_, n_, w_, s_=s_: getattr(net_, s_)()) for m, s_ in real.items()})
+        b = single[meas](net, n, wt)
+        with np.errstate(all="ignore"):
+            bad = not np.allclose(np.asarray(a, dtype=float), np.asarray(b, dtype=float), rtol=1e-9, equal_nan=True)
+        return bad, f"{meas}(all, all) = {a} but the single-network measure gives {b} on A={A.tolist()} w={wt.tolist()}"
     if w["kind"] == "py:block":
         g1, g2 = ast.literal_eval(w["g1"]), ast.literal_eval(w["g2"])
         blk = A[np.ix_(g1, g2)]
